@@ -65,6 +65,72 @@ var c07Ops = []c07Op{
 		d.AddParagraph("styled").SetStyle("Mine")
 		*log = append(*log, fmt.Sprintf("styles=%d", len(sm.GetAllStyles())))
 	}},
+	{"AddHeader(first)", func(d *document.Document, log *[]string) { d.AddHeader(document.HeaderFooterTypeFirst, "hf") }},
+	{"AddFooter(even)", func(d *document.Document, log *[]string) { d.AddFooter(document.HeaderFooterTypeEven, "fe") }},
+	{"ModifyNormalStyle(size 30)", func(d *document.Document, log *[]string) {
+		if st := d.GetStyleManager().GetStyle("Normal"); st != nil {
+			if st.RunPr == nil {
+				st.RunPr = &style.RunProperties{}
+			}
+			st.RunPr.FontSize = &style.FontSize{Val: "60"}
+		}
+		d.AddParagraph("big")
+	}},
+}
+
+// Document origins: distinct documents may descend from a common source.
+//   0 new       document.New()
+//   1 opened    OpenFromMemory of the same bytes (a library-built package with header, footer and picture)
+//   2 rendered  RenderTemplateToDocument from one shared template whose base document has those three relationships
+var c07OriginNames = []string{"new", "opened", "rendered"}
+
+// alphabets per origin (indices into c07Ops)
+var c07Alphabet = [][]int{
+	{0, 1, 2, 3, 4, 5, 6, 7, 8, 9, 10, 13},
+	{0, 1, 3, 6, 10, 11, 12},
+	{0, 1, 3, 6, 13, 11, 12},
+}
+
+func c07BaseDoc() *document.Document {
+	d := document.New()
+	d.AddParagraph("base {{v}}")
+	d.AddHeader(document.HeaderFooterTypeDefault, "H")
+	d.AddFooter(document.HeaderFooterTypeDefault, "F")
+	d.AddImageFromData(pngBytes(3, 2, 77), "base.png", document.ImageFormatPNG, 3, 2, nil)
+	return d
+}
+
+// c07Source prepares the common source of an execution and returns a constructor of documents.
+func c07Source(origin int) func() *document.Document {
+	switch origin {
+	case 1:
+		b, err := c07BaseDoc().ToBytes()
+		if err != nil {
+			panic(err)
+		}
+		return func() *document.Document {
+			d, errS := reopen(b)
+			if errS != "" {
+				panic("c07: base does not reopen: " + errS)
+			}
+			return d
+		}
+	case 2:
+		eng := document.NewTemplateEngine()
+		if _, err := eng.LoadTemplateFromDocument("t", c07BaseDoc()); err != nil {
+			panic(err)
+		}
+		return func() *document.Document {
+			data := document.NewTemplateData()
+			data.SetVariable("v", "V")
+			d, err := eng.RenderTemplateToDocument("t", data)
+			if err != nil || d == nil {
+				panic(fmt.Sprint("c07: render failed: ", err))
+			}
+			return d
+		}
+	}
+	return document.New
 }
 
 type c07Result struct {
@@ -94,11 +160,19 @@ func c07Finish(d *document.Document, log []string) c07Result {
 	return r
 }
 
-func c07RunHistory(h []int) c07Result {
+func c07RunHistory(origin int, h []int) c07Result {
+	var mk func() *document.Document
+	if p := guard(func() { mk = c07Source(origin) }); p != "" {
+		return c07Result{Err: "panic: " + p}
+	}
+	return c07RunHistoryOn(mk, h)
+}
+
+func c07RunHistoryOn(mk func() *document.Document, h []int) c07Result {
 	var d *document.Document
 	var log []string
 	if p := guard(func() {
-		d = document.New()
+		d = mk()
 		for _, o := range h {
 			c07Ops[o].f(d, &log)
 		}
@@ -107,6 +181,8 @@ func c07RunHistory(h []int) c07Result {
 	}
 	return c07Finish(d, log)
 }
+
+func c07Key(origin int, h []int) string { return fmt.Sprintf("o%d:%s", origin, c07HistKey(h)) }
 
 func c07HistKey(h []int) string {
 	s := make([]string, len(h))
@@ -124,13 +200,13 @@ func c07HistNames(h []int) []string {
 	return out
 }
 
-func c07Histories(maxLen int) [][]int {
+func c07Histories(origin, maxLen int) [][]int {
 	out := [][]int{{}}
 	last := [][]int{{}}
 	for l := 1; l <= maxLen; l++ {
 		var next [][]int
 		for _, h := range last {
-			for o := range c07Ops {
+			for _, o := range c07Alphabet[origin] {
 				next = append(next, append(append([]int{}, h...), o))
 			}
 		}
@@ -150,13 +226,18 @@ func c07SoloChild() bool {
 	enc := json.NewEncoder(out)
 	for _, hs := range strings.Split(s, ";") { // normally exactly one history per process
 		var h []int
+		origin := 0
+		if i := strings.Index(hs, ":"); i > 0 {
+			origin, _ = strconv.Atoi(hs[1:i])
+			hs = hs[i+1:]
+		}
 		for _, x := range strings.Split(hs, ",") {
 			if x != "" {
 				v, _ := strconv.Atoi(x)
 				h = append(h, v)
 			}
 		}
-		enc.Encode(c07RunHistory(h))
+		enc.Encode(c07RunHistory(origin, h))
 	}
 	out.Flush()
 	os.Exit(0)
@@ -164,12 +245,17 @@ func c07SoloChild() bool {
 }
 
 // c07Baselines runs every history alone in its own fresh process.
-func c07Baselines(hs [][]int) (map[string]c07Result, error) {
+type c07Item struct {
+	origin int
+	h      []int
+}
+
+func c07Baselines(hs []c07Item) (map[string]c07Result, error) {
 	exe, _ := os.Executable()
 	out := map[string]c07Result{}
 	var mu sync.Mutex
 	var firstErr error
-	ch := make(chan []int, len(hs))
+	ch := make(chan c07Item, len(hs))
 	for _, h := range hs {
 		ch <- h
 	}
@@ -181,7 +267,7 @@ func c07Baselines(hs [][]int) (map[string]c07Result, error) {
 			defer wg.Done()
 			for h := range ch {
 				cmd := exec.Command(exe)
-				cmd.Env = append(os.Environ(), "VCHECK_C07_SOLO="+c07HistKey(h))
+				cmd.Env = append(os.Environ(), "VCHECK_C07_SOLO="+c07Key(h.origin, h.h))
 				b, err := cmd.Output()
 				var r c07Result
 				if err == nil {
@@ -189,9 +275,9 @@ func c07Baselines(hs [][]int) (map[string]c07Result, error) {
 				}
 				mu.Lock()
 				if err != nil && firstErr == nil {
-					firstErr = fmt.Errorf("solo run of %v: %v", c07HistNames(h), err)
+					firstErr = fmt.Errorf("solo run of %s %v: %v", c07OriginNames[h.origin], c07HistNames(h.h), err)
 				}
-				out[c07HistKey(h)] = r
+				out[c07Key(h.origin, h.h)] = r
 				mu.Unlock()
 			}
 		}()
@@ -252,6 +338,7 @@ type c07Args struct {
 	BaseFile   string
 	SchedBound int
 	Threads3   bool
+	MaxExec    int64
 }
 
 func c07LoadBase(path string) map[string]c07Result {
@@ -293,15 +380,16 @@ func c07Merges(lens []int, f func(who []int)) {
 	rec()
 }
 
-func c07RunMerged(hs [][]int, who []int) []c07Result {
+func c07RunMerged(origin int, hs [][]int, who []int) []c07Result {
 	n := len(hs)
 	docs := make([]*document.Document, n)
 	logs := make([][]string, n)
 	pos := make([]int, n)
 	res := make([]c07Result, n)
 	pan := guard(func() {
+		mk := c07Source(origin)
 		for i := range docs {
-			docs[i] = document.New()
+			docs[i] = mk()
 		}
 		for _, d := range who {
 			c07Ops[hs[d][pos[d]]].f(docs[d], &logs[d])
@@ -325,16 +413,15 @@ func init() {
 		var a c07Args
 		json.Unmarshal(c.Args, &a)
 		base := c07LoadBase(a.BaseFile)
-		hA := c07Histories(a.MaxA)
-		hB := c07Histories(a.MaxB)
 		idx := int64(0)
+		origin := 0
 		judge := func(idx int64, hs [][]int, who []int) {
 			P := c.P
-			res := c07RunMerged(hs, who)
+			res := c07RunMerged(origin, hs, who)
 			P.Evals++
 			P.Transitions += int64(len(who))
 			P.Traces++
-			key := ""
+			key := c07OriginNames[origin] + "/"
 			for _, h := range hs {
 				key += c07HistKey(h) + "/"
 			}
@@ -350,9 +437,9 @@ func init() {
 				P.Nontrivial = append(P.Nontrivial, rep.Hash(key))
 			}
 			for d, h := range hs {
-				want, ok := base[c07HistKey(h)]
+				want, ok := base[c07Key(origin, h)]
 				if !ok {
-					P.HarnessErrs = append(P.HarnessErrs, "no baseline for "+c07HistKey(h))
+					P.HarnessErrs = append(P.HarnessErrs, "no baseline for "+c07Key(origin, h))
 					return
 				}
 				diff := c07Diff(res[d], want)
@@ -366,9 +453,9 @@ func init() {
 					names[i] = c07HistNames(hh)
 				}
 				for _, cul := range diff {
-					P.Violate(rep.Violation{Sig: "sequential-dependence|" + cul, Clause: "sequential independence", Depth: len(who),
-						What: fmt.Sprintf("document %d (history %v) differs from the same history run alone in %s when other documents are worked on in between (histories %v, order %v)", d, c07HistNames(h), cul, names, who),
-						Case: shardCase(c, "C07seq", idx, map[string]interface{}{"histories": names, "order_by_document": who})})
+					P.Violate(rep.Violation{Sig: "sequential-dependence|" + cul + "|" + c07OriginNames[origin], Clause: "sequential independence", Depth: len(who),
+						What: fmt.Sprintf("%s document %d (history %v) differs from the same history run alone in %s when other documents are worked on in between (histories %v, order %v)", c07OriginNames[origin], d, c07HistNames(h), cul, names, who),
+						Case: shardCase(c, "C07seq", idx, map[string]interface{}{"origin": c07OriginNames[origin], "histories": names, "order_by_document": who})})
 				}
 			}
 			if len(P.Samples) < 3 && len(who) >= 3 && inter {
@@ -376,27 +463,36 @@ func init() {
 				for i, hh := range hs {
 					names[i] = c07HistNames(hh)
 				}
-				P.Samples = append(P.Samples, map[string]interface{}{"part": "sequential merges", "histories": names, "order_by_document": append([]int{}, who...)})
+				P.Samples = append(P.Samples, map[string]interface{}{"part": "sequential merges", "origin": c07OriginNames[origin], "histories": names, "order_by_document": append([]int{}, who...)})
 			}
 		}
-		for _, ha := range hA {
-			for _, hb := range hB {
-				if len(ha) == 0 && len(hb) == 0 {
-					continue
-				}
-				hs := [][]int{ha, hb}
-				c07Merges([]int{len(ha), len(hb)}, func(who []int) {
-					my := c.Begin(idx, nil)
-					idx++
-					if my {
-						judge(idx-1, hs, append([]int{}, who...))
+		for origin = 0; origin < len(c07OriginNames); origin++ {
+			hA := c07Histories(origin, a.MaxA)
+			hB := c07Histories(origin, a.MaxB)
+			for ia, ha := range hA {
+				for ib, hb := range hB {
+					if len(ha) == 0 && len(hb) == 0 {
+						continue
 					}
-				})
+					// both documents have the same origin, so (ha,hb) and (hb,ha) have mirror-image merges: one of them is enough
+					if ib < ia && ib < len(hA) && ia < len(hB) {
+						continue
+					}
+					hs := [][]int{ha, hb}
+					c07Merges([]int{len(ha), len(hb)}, func(who []int) {
+						my := c.Begin(idx, nil)
+						idx++
+						if my {
+							judge(idx-1, hs, append([]int{}, who...))
+						}
+					})
+				}
 			}
 		}
+		origin = 0
 		if a.Triples {
-			one := c07Histories(1)[1:]
-			two := c07Histories(2)[1:]
+			one := c07Histories(0, 1)[1:]
+			two := c07Histories(0, 2)[1:]
 			for _, ha := range two {
 				for _, hb := range one {
 					for _, hc := range one {
@@ -421,29 +517,55 @@ func init() {
 
 // thread bodies: short histories that touch everything a document owns
 var c07Bodies = [][]int{
-	{1},     // AddFootnote
-	{3},     // AddListItem(bullet)
-	{1, 3},  // AddFootnote, AddListItem
-	{2, 9},  // AddEndnote, ToBytes
-	{4, 1},  // AddListItem(decimal), AddFootnote
-	{6, 5},  // image, header
-	{10, 0}, // custom style, paragraph
-	{1, 8},  // AddFootnote, RemoveFootnote(1)
+	{1},      // AddFootnote
+	{3},      // AddListItem(bullet)
+	{1, 3},   // AddFootnote, AddListItem
+	{2, 9},   // AddEndnote, ToBytes
+	{4, 1},   // AddListItem(decimal), AddFootnote
+	{6, 5},   // image, header
+	{10, 0},  // custom style, paragraph
+	{1, 8},   // AddFootnote, RemoveFootnote(1)
+	{11, 6},  // header(first), image          (bodies 8.. are also run on documents rendered from one shared template)
+	{12, 3},  // footer(even), list item
+	{13, 9},  // modify the Normal style, ToBytes
 }
 
-func c07Scenarios(three bool) [][]int {
-	var out [][]int
-	n := len(c07Bodies)
+// a scheduling scenario: the origin of the documents and the body of each thread
+type c07Scenario struct {
+	Origin int
+	Bodies []int
+}
+
+func c07Scenarios(three bool) []c07Scenario {
+	var out []c07Scenario
+	n := 8 // bodies 8, 9 use operations of the shared-source alphabet only
+	out = append(out, c07Scenario{0, []int{10, 10}}, c07Scenario{0, []int{10, 0}}, c07Scenario{0, []int{10, 6}})
 	for i := 0; i < n; i++ {
 		for j := i; j < n; j++ {
-			out = append(out, []int{i, j})
+			out = append(out, c07Scenario{0, []int{i, j}})
+		}
+	}
+	// documents descending from one shared source: bodies over the reduced alphabet only
+	shared := []int{0, 1, 2, 8, 9}
+	for _, origin := range []int{1, 2} {
+		for x, i := range shared {
+			for _, j := range shared[x:] {
+				out = append(out, c07Scenario{origin, []int{i, j}})
+			}
 		}
 	}
 	if three {
 		for i := 0; i < 5; i++ {
 			for j := i; j < 5; j++ {
 				for k := j; k < 5; k++ {
-					out = append(out, []int{i, j, k})
+					out = append(out, c07Scenario{0, []int{i, j, k}})
+				}
+			}
+		}
+		for x, i := range shared {
+			for y, j := range shared[x:] {
+				for _, k := range shared[x+y:] {
+					out = append(out, c07Scenario{2, []int{i, j, k}})
 				}
 			}
 		}
@@ -463,21 +585,22 @@ func c07SchedWorker(c *shard.Ctx) {
 			continue
 		}
 		P := c.P
-		names := make([][]string, len(sc))
-		for i, b := range sc {
-			names[i] = c07HistNames(c07Bodies[b])
+		names := make([][]string, len(sc.Bodies))
+		for i, b := range sc.Bodies {
+			names[i] = append([]string{"origin:" + c07OriginNames[sc.Origin]}, c07HistNames(c07Bodies[b])...)
 		}
-		results := make([]c07Result, len(sc))
+		results := make([]c07Result, len(sc.Bodies))
 		scenario := func() ([]func(), func(r *schedx.Result)) {
-			bodies := make([]func(), len(sc))
-			for i, b := range sc {
+			mk := c07Source(sc.Origin) // the common source is built before the threads start
+			bodies := make([]func(), len(sc.Bodies))
+			for i, b := range sc.Bodies {
 				i, b := i, b
-				bodies[i] = func() { results[i] = c07RunHistory(c07Bodies[b]) }
+				bodies[i] = func() { results[i] = c07RunHistoryOn(mk, c07Bodies[b]) }
 			}
 			return bodies, nil
 		}
 		outcomes := map[string]bool{}
-		st := schedx.Explore(scenario, schedx.Options{Bound: a.SchedBound, Deadline: time.Time{}, Horizon: 200000}, func(r *schedx.Result) {
+		st := schedx.Explore(scenario, schedx.Options{Bound: a.SchedBound, Horizon: 200000, MaxExec: a.MaxExec, Progress: c.Heartbeat}, func(r *schedx.Result) {
 			P.Evals++
 			P.Traces++
 			P.Transitions += int64(len(r.Points))
@@ -488,8 +611,12 @@ func c07SchedWorker(c *shard.Ctx) {
 					Case: shardCase(c, "C07sched", idx, map[string]interface{}{"threads": names, "schedule": r.Choices})})
 				return
 			}
-			for t := range sc {
-				want := base[c07HistKey(c07Bodies[sc[t]])]
+			for t := range sc.Bodies {
+				want, ok := base[c07Key(sc.Origin, c07Bodies[sc.Bodies[t]])]
+				if !ok {
+					P.HarnessErrs = append(P.HarnessErrs, "no baseline for "+c07Key(sc.Origin, c07Bodies[sc.Bodies[t]]))
+					return
+				}
 				got := results[t]
 				if p, ok := r.Panics[t]; ok {
 					got = c07Result{Err: "panic: " + p}
@@ -497,7 +624,7 @@ func c07SchedWorker(c *shard.Ctx) {
 				diff := c07Diff(got, want)
 				sig += strings.Join(diff, "+") + "/"
 				for _, cul := range diff {
-					P.Violate(rep.Violation{Sig: "concurrent-dependence|" + cul, Clause: "concurrent independence", Depth: len(r.Choices),
+					P.Violate(rep.Violation{Sig: "concurrent-dependence|" + cul + "|" + c07OriginNames[sc.Origin], Clause: "concurrent independence", Depth: len(r.Choices),
 						What: fmt.Sprintf("thread %d (%v) produced a document that differs from the one it produces alone in %s; threads %v, schedule (choice per point) %v", t, names[t], cul, names, r.Choices),
 						Case: shardCase(c, "C07sched", idx, map[string]interface{}{"threads": names, "schedule": r.Choices})})
 				}
@@ -520,7 +647,7 @@ func c07SchedWorker(c *shard.Ctx) {
 		}
 		if st.Incomplete {
 			P.Incomplete = true
-			P.Notes = append(P.Notes, fmt.Sprintf("scenario %v: exploration incomplete (%v)", names, st.Divergences))
+			P.Notes = append(P.Notes, fmt.Sprintf("scenario %v: exploration stopped after %d schedules (cap hit: %v; preemption bound completed: %d) %v", names, st.Executions, st.Capped, st.BoundDone, st.Divergences))
 		}
 		for _, d := range st.Divergences {
 			P.HarnessErrs = append(P.HarnessErrs, "schedule replay divergence in scenario "+key+": "+d)
@@ -537,7 +664,15 @@ func c07RaceBodies() []func() {
 	var out []func()
 	for _, b := range c07Bodies {
 		b := b
-		out = append(out, func() { c07RunHistory(b) })
+		out = append(out, func() { c07RunHistory(0, b) })
+	}
+	// distinct documents descending from one shared source (opened from the same bytes, rendered from one template)
+	for _, origin := range []int{1, 2} {
+		mk := c07Source(origin)
+		for _, bi := range []int{0, 2, 8, 9} {
+			b := c07Bodies[bi]
+			out = append(out, func() { c07RunHistoryOn(mk, b) })
+		}
 	}
 	// bodies that touch no note/numbering registry at all
 	out = append(out, func() {
@@ -556,7 +691,11 @@ func c07RaceBodies() []func() {
 // racePassChild runs `bodies` pairwise concurrently in a free-running process (race build).
 func racePassChild(bodies []func(), reps int) {
 	// warm-up: the encoding/xml and reflect caches must be quiescent, otherwise their internal locks order the accesses
-	for i := 0; i < 200; i++ {
+	warm, allPairs := 200, true
+	if os.Getenv("VCHECK_TIER") != "thorough" {
+		warm, allPairs = 80, false
+	}
+	for i := 0; i < warm; i++ {
 		for _, b := range bodies {
 			b()
 		}
@@ -564,6 +703,9 @@ func racePassChild(bodies []func(), reps int) {
 	for rp := 0; rp < reps; rp++ {
 		for i := range bodies {
 			for j := i; j < len(bodies); j++ {
+				if !allPairs && j != i && j != i+1 && !(i == 0 && j == len(bodies)-1) {
+					continue // quick: every body against itself and against its ring neighbours
+				}
 				pair := []func(){bodies[i], bodies[j]}
 				if rp%2 == 1 {
 					pair[0], pair[1] = pair[1], pair[0]
@@ -605,7 +747,7 @@ func parseRaces(stderr string) map[string]string {
 				continue
 			}
 			lines := strings.Split(s, "\n")
-			fn := "?"
+			fn := "caller-code"
 			for _, l := range lines {
 				l = strings.TrimSpace(l)
 				if strings.HasPrefix(l, "github.com/zerx-lab/wordZero/pkg/") {
@@ -639,7 +781,7 @@ func runRacePass(r *rep.Run, id string, what string) {
 		return
 	}
 	cmd := exec.Command(exe)
-	cmd.Env = append(os.Environ(), "VCHECK_RACEPASS="+id, "GORACE=history_size=7 exitcode=0 halt_on_error=0")
+	cmd.Env = append(os.Environ(), "VCHECK_RACEPASS="+id, "VCHECK_TIER="+r.Tier, "GORACE=history_size=7 exitcode=0 halt_on_error=0")
 	var errb strings.Builder
 	cmd.Stderr = &errb
 	t0 := time.Now()
@@ -665,7 +807,7 @@ func racePassMain() bool {
 	case "":
 		return false
 	case "C07":
-		racePassChild(c07RaceBodies(), 6)
+		racePassChild(c07RaceBodies(), map[bool]int{true: 6, false: 2}[os.Getenv("VCHECK_TIER") == "thorough"])
 	case "C17":
 		c17RacePass()
 	}
@@ -679,8 +821,10 @@ func runC07(r *rep.Run) {
 	if r.Tier == "thorough" {
 		maxA, maxB, three = 3, 2, true
 	}
-	r.Rule = "part S: all pairs of per-document histories over 11 operations (lengths <= bounds) and ALL merges of the two sequences, executed on distinct documents in one process; part C: every schedule with <= 2 preemptions of 2 (thorough: 3) goroutines each building and saving its own document, scheduling points = every statement of every function that touches a mutable package-level variable or calls such a function, and every lock operation; oracle for both: each document's canonical package (per part) and accessor results equal those of its own history executed alone as the first activity of a fresh process; part R: the same bodies pairwise in a free-running -race build after 200 sequential warm-ups (race detector = detection only); non-trivial = a merge in which the documents alternate / a scenario with at least one branching scheduling point"
+	r.Rule = "documents of three origins (new; opened from the same bytes; rendered from one shared template); part S: all pairs of per-document histories over the origin's alphabet (11 / 7 / 7 operations) (lengths <= bounds) and ALL merges of the two sequences, executed on distinct documents in one process; part C: every schedule with <= 2 preemptions of 2 (thorough: 3) goroutines each building and saving its own document, scheduling points = every statement of every function that touches a mutable package-level variable or calls such a function, and every lock operation; oracle for both: each document's canonical package (per part) and accessor results equal those of its own history executed alone as the first activity of a fresh process; part R: the same bodies pairwise in a free-running -race build after 200 sequential warm-ups (race detector = detection only); non-trivial = a merge in which the documents alternate / a scenario with at least one branching scheduling point"
 	r.Bounds["ops"] = len(c07Ops)
+	r.Bounds["origins"] = c07OriginNames
+	r.Bounds["alphabet_per_origin"] = []int{len(c07Alphabet[0]), len(c07Alphabet[1]), len(c07Alphabet[2])}
 	r.Bounds["max_history_len_A"] = maxA
 	r.Bounds["max_history_len_B"] = maxB
 	r.Bounds["third_document"] = three
@@ -696,14 +840,21 @@ func runC07(r *rep.Run) {
 		return
 	}
 	defer os.RemoveAll(dir)
-	hs := c07Histories(maxA)
+	var hs []c07Item
+	for origin := range c07OriginNames {
+		for _, h := range c07Histories(origin, maxA) {
+			hs = append(hs, c07Item{origin, h})
+		}
+	}
+	t0 := time.Now()
 	base, err := c07Baselines(hs)
+	r.P.Add("baselines_ms", time.Since(t0).Milliseconds())
 	if err != nil {
 		r.P.HarnessErrs = append(r.P.HarnessErrs, err.Error())
 		return
 	}
 	// determinism of the baseline itself: the empty and a rich history twice
-	again, _ := c07Baselines([][]int{{}, {1, 3}})
+	again, _ := c07Baselines([]c07Item{{0, nil}, {0, []int{1, 3}}, {2, []int{11, 6}}})
 	for k, v := range again {
 		if len(c07Diff(v, base[k])) != 0 {
 			r.P.HarnessErrs = append(r.P.HarnessErrs, "solo baseline not reproducible for history "+k)
@@ -714,12 +865,21 @@ func runC07(r *rep.Run) {
 	bb, _ := json.Marshal(base)
 	os.WriteFile(bf, bb, 0o644)
 	r.P.Add("solo_baselines_fresh_processes", int64(len(base)))
-	args := c07Args{MaxA: maxA, MaxB: maxB, Triples: three, BaseFile: bf, SchedBound: bound, Threads3: three}
+	maxExec := int64(4000)
+	if r.Tier == "thorough" {
+		maxExec = 60000
+	}
+	r.Bounds["max_schedules_per_scenario"] = maxExec
+	args := c07Args{MaxA: maxA, MaxB: maxB, Triples: three, BaseFile: bf, SchedBound: bound, Threads3: three, MaxExec: maxExec}
+	t1 := time.Now()
 	runShards(r, "C07seq", args, 120*time.Second, nil)
+	r.P.Add("part_S_ms", time.Since(t1).Milliseconds())
 	if r.OutOfTime() {
 		return
 	}
+	t1 = time.Now()
 	runShards(r, "C07sched", args, 300*time.Second, nil)
+	r.P.Add("part_C_ms", time.Since(t1).Milliseconds())
 	// instrumentation report: which functions carry points in this tree
 	if b, err := os.ReadFile(filepath.Join(rep.VerifDir, "build", "instrument.json")); err == nil {
 		var ir map[string]interface{}
